@@ -153,6 +153,19 @@ pub fn two_input_tick<'a>(node: &Process<'a>) -> (Tx<u32>, Tx<u32>, Rx<(Vec<u32>
     (tx_a, tx_b, out)
 }
 
+/// One tick fed by THREE ordered inputs; output per tick = (batch of a, batch of b, batch of c).
+pub fn three_input_tick<'a>(node: &Process<'a>) -> (Tx<u32>, Tx<u32>, Tx<u32>, Rx<((Vec<u32>, Vec<u32>), Vec<u32>)>) {
+    let tick = node.tick();
+    let (tx_a, a) = node.sim_input();
+    let (tx_b, b) = node.sim_input();
+    let (tx_c, c) = node.sim_input();
+    let fa = a.batch(&tick, nondet!(/** observation */)).fold(q!(|| Vec::new()), q!(|acc, v| acc.push(v)));
+    let fb = b.batch(&tick, nondet!(/** observation */)).fold(q!(|| Vec::new()), q!(|acc, v| acc.push(v)));
+    let fc = c.batch(&tick, nondet!(/** observation */)).fold(q!(|| Vec::new()), q!(|acc, v| acc.push(v)));
+    let out = fa.zip(fb).zip(fc).all_ticks().sim_output();
+    (tx_a, tx_b, tx_c, out)
+}
+
 /// One tick fed by a batch and by a snapshot of an (ordered) top-level fold over a second input;
 /// output per tick = (batch, snapshot version).
 pub fn batch_and_snapshot<'a>(node: &Process<'a>) -> (Tx<u32>, Tx<u32>, Rx<(Vec<u32>, Vec<u32>)>) {
